@@ -79,6 +79,7 @@ def run(repo, rep, tier):
     nested_reference_rule(repo, rep)
     keybinding_tokeniser_rule(repo, rep)
     real_key_text_rule(repo, rep)
+    printed_prefix_rule(repo, rep)
     inm = repo.cls(OBJ, 'CIMInstanceName')
     cnm = repo.cls(OBJ, 'CIMClassName')
 
@@ -704,3 +705,177 @@ def real_key_text_rule(repo, rep):
                         % (v,))
     if n < 2:
         raise AnalysisError('C07.R8: real key printing sites not found')
+
+
+def _prefix_tokens(func, fmt, host_set, ns_set):
+    """the tokens to_wbem_uri() appends to its result list up to and
+    including the class name, for one abstract case (format constant, host /
+    namespace present or None).  The control flow of that part depends only
+    on these three facts, so the evaluation is exact; ('?', text) when a
+    condition or an appended expression is not understood."""
+    from ..constprop import evaluate, UNKNOWN
+    import copy as _copy
+
+    class Abst(ast.NodeTransformer):
+        def visit_Attribute(self, n):
+            if isinstance(n.value, ast.Name) and n.value.id == 'self' and \
+                    n.attr in ('host', 'namespace', '_host', '_namespace'):
+                return ast.copy_location(
+                    ast.Name(id='__' + n.attr.lstrip('_'), ctx=ast.Load()),
+                    n)
+            return self.generic_visit(n)
+
+    def look(name):
+        if name == 'format':
+            return fmt
+        if name == '__host':
+            return 'H' if host_set else None
+        if name == '__namespace':
+            return 'N' if ns_set else None
+        return UNKNOWN
+    toks = []
+    lst = [None]
+
+    def token(e):
+        if isinstance(e, ast.Constant) and isinstance(e.value, str):
+            return ('lit', e.value)
+        txt = norm(e, 80)
+        for fld in ('host', 'namespace', 'classname'):
+            if 'self.' + fld in txt or 'self._' + fld in txt:
+                return (fld, None)
+        return ('?', txt)
+
+    def run(stmts):
+        for st in stmts:
+            if isinstance(st, (ast.FunctionDef, ast.Pass)) or (
+                    isinstance(st, ast.Expr) and
+                    isinstance(st.value, ast.Constant)):
+                continue
+            if isinstance(st, ast.Raise):
+                return 'raise'
+            if isinstance(st, ast.If):
+                v = evaluate(Abst().visit(_copy.deepcopy(st.test)), look)
+                if v is UNKNOWN:
+                    # a condition on something else: it must not touch the
+                    # result list
+                    if any(isinstance(x, ast.Name) and x.id == lst[0]
+                           for b in st.body + st.orelse
+                           for x in ast.walk(b)):
+                        toks.append(('?', norm(st.test, 60)))
+                        return 'stop'
+                    continue
+                r = run(st.body if v else st.orelse)
+                if r:
+                    return r
+                continue
+            if isinstance(st, ast.Assign) and len(st.targets) == 1 and \
+                    isinstance(st.targets[0], ast.Name) and \
+                    isinstance(st.value, ast.List):
+                if lst[0] is None:
+                    lst[0] = st.targets[0].id
+                    for e in st.value.elts:
+                        toks.append(token(e))
+                continue
+            if isinstance(st, ast.Expr) and isinstance(st.value, ast.Call) and \
+                    isinstance(st.value.func, ast.Attribute) and \
+                    st.value.func.attr == 'append' and \
+                    isinstance(st.value.func.value, ast.Name) and \
+                    st.value.func.value.id == lst[0] and st.value.args:
+                t = token(st.value.args[0])
+                toks.append(t)
+                if t[0] in ('classname', '?'):
+                    return 'stop'
+                continue
+            if lst[0] is not None and any(
+                    isinstance(x, ast.Name) and x.id == lst[0]
+                    for x in ast.walk(st)):
+                toks.append(('?', norm(st, 60)))
+                return 'stop'
+        return None
+    r = run(func.body)
+    if r == 'raise':
+        return None
+    return toks
+
+
+def printed_prefix_rule(repo, rep):
+    """C07.R9: for every format x (host present?) x (namespace present?) the
+    part of the URI that to_wbem_uri() prints before the keybindings is
+    matched by the parser's own pattern, and the pattern's groups give back
+    the host, namespace and class name that were printed.  That part of the
+    printer branches only on these three facts, so the 16 cases per class
+    are evaluated exactly (no sampling of values other than one
+    representative host / namespace / class name)."""
+    from ..model import module_env
+    r9 = rep.rule('C07.R9', 'the printed scheme/host/namespace/class prefix is '
+                  'in the parser language for every format and every '
+                  'combination of present components')
+    mod = repo.module(OBJ)
+    SAMPLE = {'host': 'myhost', 'namespace': 'root/cimv2',
+              'classname': 'cim_foo'}
+    for cn, rx_name, tail in (('CIMClassName', 'WBEM_URI_CLASSPATH_REGEXP',
+                               ''),
+                              ('CIMInstanceName',
+                               'WBEM_URI_INSTANCEPATH_REGEXP', '.k=1')):
+        cls = repo.cls(OBJ, cn)
+        f = cls.methods.get('to_wbem_uri')
+        if f is None:
+            raise AnalysisError('%s.to_wbem_uri vanished' % cn)
+        r9.functions.add(f.fq)
+        rc = regex_const(repo, f, ast.Name(id=rx_name, ctx=ast.Load()))
+        if rc is None:
+            raise AnalysisError('%s not resolvable' % rx_name)
+        pat = re.compile(rc[0], rc[1])
+        formats = None
+        for n in walk_no_nested(f.node):
+            if isinstance(n, ast.Compare) and len(n.ops) == 1 and \
+                    isinstance(n.ops[0], ast.NotIn) and \
+                    norm(n.left) == 'format' and \
+                    isinstance(n.comparators[0], (ast.Tuple, ast.List)):
+                fs_ = [const_str(e) for e in n.comparators[0].elts]
+                if formats is None or len(fs_) > len(formats):
+                    formats = fs_
+        if not formats or None in formats:
+            raise AnalysisError('%s.to_wbem_uri: format list not found' % cn)
+        for fmt in formats:
+            for host_set in (False, True):
+                for ns_set in (False, True):
+                    toks = _prefix_tokens(f, fmt, host_set, ns_set)
+                    if toks is None:
+                        continue
+                    r9.sites += 1
+                    case = '%s|%s|host=%s|namespace=%s' % (
+                        cn, fmt, 'set' if host_set else 'None',
+                        'set' if ns_set else 'None')
+                    bad = [t for t in toks if t[0] == '?']
+                    if bad or not toks or toks[-1][0] != 'classname':
+                        r9.undecided.append('%s: %s' % (case, bad[:1]))
+                        continue
+                    uri = ''.join(t[1] if t[0] == 'lit' else SAMPLE[t[0]]
+                                  for t in toks) + tail
+                    m = pat.match(uri)
+                    printed_host = any(t[0] == 'host' for t in toks)
+                    exp = (SAMPLE['host'] if printed_host else None,
+                           SAMPLE['namespace'] if ns_set else None,
+                           SAMPLE['classname'])
+                    got = (m.group(2), m.group(3), m.group(4)) if m else None
+                    ok = m is not None and got == exp
+                    r9.ob(ok, case, {'printed': uri, 'parsed': got})
+                    if not ok:
+                        rep.finding(
+                            r9, f.qualname, '%s host=%s namespace=%s'
+                            % (fmt, 'set' if host_set else 'None',
+                               'set' if ns_set else 'None'),
+                            'prefix-not-parsed', OBJ, f.node.lineno,
+                            'in format %r with host %s and namespace %s '
+                            'to_wbem_uri() prints %r, which %s %s: the '
+                            'printed path is rejected by from_wbem_uri() or '
+                            'comes back with other components'
+                            % (fmt, 'set' if host_set else 'None',
+                               'set' if ns_set else 'None', uri, rx_name,
+                               'does not match' if m is None else
+                               'splits into host/namespace/class %r instead '
+                               'of %r' % (got, exp)))
+    if r9.sites < 24:
+        raise AnalysisError('C07.R9: only %d prefix cases evaluated'
+                            % r9.sites)
